@@ -249,16 +249,16 @@ PROPS = {
         "assumptions": ["Katib creates at most one trial per assignment and never changes a trial's assignments", "bounds and steps are short decimals (shortest float representation)"],
     },
     "C13": {
-        "prop_files": ["Katib/Props/C13.lean"],
+        "prop_files": ["Katib/Props/C13.lean", "Katib/Props/C13Guards.lean"],
         "n": {"quick": 8000, "thorough": 300000},
         "rule": "TEXT logs (default filter and four custom two-group filters incl. two filters at once; several metrics per line, noise lines, lines without space, valid/invalid/missing "
                 "first-token timestamps, random byte lines, lines of 3-9 kB) and JSON-lines logs (records up to 70 kB; string / numeric / missing / wrong-typed timestamps with 0-10 fractional digits, negative and huge "
                 "numbers, non-string metric values, empty and invalid lines) x tracked-metric lists (1-3 names, duplicates; rarely empty); written to a temp file and read by the real "
                 "CollectObservationLog; non-trivial = at least one tracked metric",
-        "trusted": ["regexp, strings.Contains/SplitN/TrimSpace, time.Parse, encoding/json, strconv are oracles evaluated by the harness independently of the collector code"],
+        "trusted": ["the go/ast path-condition translator (kvh extract guards / pred / skip; what it is trusted for: DESIGN.md section 2)", "regexp, strings.Contains/SplitN/TrimSpace, time.Parse, encoding/json, strconv are oracles evaluated by the harness independently of the collector code"],
         "modelled": ["parseLogsInTextFormat, parseLogsInJsonFormat, newObservationLog, parseTimestamp as Katib.Log.parseText/parseJson/finish/epochNanos"],
         "level_text": "partial: Lean theorems C13_text (exactly the tracked occurrences in line/filter/match order with value and timestamp), C13_only_tracked, C13_fallback, C13_total(+_json), "
-                      "C13_json_line, C13_json_invalid, C13_epoch_partial; C13_epoch_order_counterexample witnesses the known finding (fraction read as nanoseconds); differential run on "
+                      "C13_json_line, C13_json_invalid, C13_epoch_partial; C13_epoch_order_counterexample witnesses the known finding (fraction read as nanoseconds); C13_text_timestamp/append/prefilter_is_source, C13_unavailable_is_source, C13_json_error/timestamp/append_is_source: the model takes the first token as timestamp, appends a record, returns the unavailable entry and the JSON error under exactly the path conditions regenerated from the three Go functions on this run (6 sites); differential run on "
                       "generated files incl. byte fuzz",
         "level_note": "partial: regexp/JSON/time engines are oracles; Go crash-freedom beyond the modelled index site is evidence from the byte-fuzz stream, not a theorem",
         "assumptions": ["filters compile and have two groups (enforced by the experiment validator)", "the collector always passes the objective metric first (non-empty list)"],
